@@ -11,6 +11,8 @@ import (
 	"net/url"
 	"strconv"
 	"strings"
+	"sync"
+	"sync/atomic"
 
 	// crypto libraries included for go-digest
 	_ "crypto/sha256"
@@ -378,7 +380,11 @@ func (reg *Reg) blobPutUploadFull(ctx context.Context, r ref.Ref, d descriptor.D
 
 	// make a reader function for the blob
 	readOnce := false
+	var body *bodyGuard
+	defer func() { body.detach() }()
 	bodyFunc := func() (io.ReadCloser, error) {
+		// a previous attempt may still be sending its body
+		body.detach()
 		// handle attempt to reuse blob reader (e.g. on a connection retry or fallback)
 		if readOnce {
 			rdrSeek, ok := rdr.(io.ReadSeeker)
@@ -391,7 +397,13 @@ func (reg *Reg) blobPutUploadFull(ctx context.Context, r ref.Ref, d descriptor.D
 			}
 		}
 		readOnce = true
-		return io.NopCloser(rdr), nil
+		switch rdr.(type) {
+		case *bytes.Reader, *strings.Reader:
+			// net/http does not flush the headers ahead of a body it knows to be in memory, keep that
+			return io.NopCloser(rdr), nil
+		}
+		body = &bodyGuard{rdr: rdr}
+		return body, nil
 	}
 	// special case for the empty blob
 	if d.Size == 0 && d.Digest == zeroDig {
@@ -442,13 +454,17 @@ func (reg *Reg) blobPutUploadChunked(ctx context.Context, r ref.Ref, d descripto
 	finalChunk := false
 	chunkStart := int64(0)
 	chunkSize := 0
+	var body *bodyGuard
 	bodyFunc := func() (io.ReadCloser, error) {
+		// a previous attempt may still be sending its body
+		body.detach()
 		// reset to the start on every new read
 		_, err := bufRdr.Seek(0, io.SeekStart)
 		if err != nil {
 			return nil, err
 		}
-		return io.NopCloser(bufRdr), nil
+		body = &bodyGuard{rdr: bufRdr}
+		return body, nil
 	}
 	chunkURL := *putURL
 	retryLimit := 10 // TODO: pull limit from reghttp
@@ -513,6 +529,8 @@ func (reg *Reg) blobPutUploadChunked(ctx context.Context, r ref.Ref, d descripto
 				TransactLen: d.Size - int64(chunkSize),
 			}
 			resp, err := reg.reghttp.Do(ctx, req)
+			// the buffer is reused for the next chunk
+			body.detach()
 			if err != nil && !errors.Is(err, errs.ErrHTTPStatus) && !errors.Is(err, errs.ErrNotFound) {
 				return d, fmt.Errorf("failed to send blob (chunk), ref %s: http do: %w", r.CommonName(), err)
 			}
@@ -619,6 +637,41 @@ func (reg *Reg) blobPutUploadChunked(ctx context.Context, r ref.Ref, d descripto
 	}
 
 	return d, nil
+}
+
+// bodyGuard wraps a reader that is handed to the http transport as a request body and reused afterwards.
+// The transport may still be reading the body of a request that has already returned (a reply arrived or the
+// connection failed before the body was sent), so reads are serialized and the reader is detached from the
+// previous request before it is rewound, refilled or handed to the next request.
+type bodyGuard struct {
+	mu     sync.Mutex
+	rdr    io.Reader
+	closed atomic.Bool
+}
+
+func (bg *bodyGuard) Read(p []byte) (int, error) {
+	bg.mu.Lock()
+	defer bg.mu.Unlock()
+	if bg.rdr == nil || bg.closed.Load() {
+		return 0, io.ErrClosedPipe
+	}
+	return bg.rdr.Read(p)
+}
+
+// Close is called by the transport and does not wait for a read in progress.
+func (bg *bodyGuard) Close() error {
+	bg.closed.Store(true)
+	return nil
+}
+
+// detach waits for a read in progress and makes every later read fail without touching the reader.
+func (bg *bodyGuard) detach() {
+	if bg == nil {
+		return
+	}
+	bg.mu.Lock()
+	bg.rdr = nil
+	bg.mu.Unlock()
 }
 
 // blobUploadCancel stops an upload, releasing resources on the server.
